@@ -216,6 +216,26 @@ for kind in ('CCD', 'MKID', 'CMOS', 'APD'):
                 a, b = getattr(d, n)._array, getattr(d2, n)._array
                 if (a is None) != (b is None) or (a is not None and not np.array_equal(a, b)):
                     VIOLATED, DETAIL = True, f'{kind} with {subset} initialised: container {n} original {None if a is None else a.ravel()[:2]} reloaded {None if b is None else np.asarray(b).ravel()[:2]}'
+# the cluster table, every column holding DIFFERENT values, through a real file (the ASDF writer sorts mapping keys) and through the dictionary
+import tempfile, pathlib
+tmp = pathlib.Path(tempfile.mkdtemp())
+for kind in ('CCD', 'CMOS', 'MKID', 'APD'):
+    if VIOLATED: break
+    d = mk(kind)
+    d.pixel.array = np.full((2, 3), 2.5)
+    d.charge.add_charge(particle_type='e', particles_per_cluster=np.array([5.0, 7.0, 11.0]), init_energy=np.array([100.0, 200.0, 300.0]), init_ver_position=np.array([0.25, 1.5, 1.75]),
+                        init_hor_position=np.array([0.5, 2.5, 1.25]), init_z_position=np.array([0.01, 0.02, 0.03]), init_ver_velocity=np.array([1.0, 2.0, 3.0]), init_hor_velocity=np.array([4.0, 5.0, 6.0]),
+                        init_z_velocity=np.array([7.0, 8.0, 9.0]))
+    want = d.charge.frame.copy(); arr = np.array(d.charge.array)
+    for route in ('dict', 'asdf'):
+        if route == 'dict':
+            d2 = type(d).from_dict(d.to_dict())
+        else:
+            f = tmp / f'{kind}.asdf'; d.save(f); d2 = type(d).load(f)
+        got = d2.charge.frame
+        bad = [c for c in want.columns if c not in got.columns or not np.array_equal(np.asarray(got[c], dtype=float), np.asarray(want[c], dtype=float))]
+        if bad or list(got.columns) != list(want.columns) or not np.array_equal(np.array(d2.charge.array), arr):
+            VIOLATED, DETAIL = True, f'{kind} through {route}: cluster table columns {bad} differ after the round trip (e.g. number {np.asarray(got["number"]).tolist()} instead of {np.asarray(want["number"]).tolist()}); column order {list(got.columns)[:4]}...'; break
 """, "expect": "every container is empty iff the original is and otherwise holds an equal array"}
 
 
@@ -323,7 +343,10 @@ def data_unit(kind, qual):
             same_table = isinstance(fo, VOpaque) and isinstance(fn_, VOpaque) and fn_.kind == "df"
             u.oblige(p, f"data.roundtrip[{kind}][cluster table]", z3.And(fn_.info["nrows"] == fo.info["nrows"], z3.Or(fo.info["nrows"] == 0, fn_.info["content"] == fo.info["content"])) if same_table else z3.BoolVal(False),
                      {"clusters": z3.Int("charge_rows")}, DATA_REPLAY)
-        u.static(f"data.cover[{kind}]", n_ok >= 1, td.qualname, f"{n_ok} complete round trips explored")
+        if n_ok >= 1:
+            u.static(f"data.cover[{kind}]", True, td.qualname, f"{n_ok} complete round trips explored")
+        else:        # nothing explored (the unit left the contracts' reach): undecided -- never a violation by itself
+            u.undecide(f"data.cover[{kind}]", td.qualname, "vacuity: no complete round trip was explored")
     return un
 
 
